@@ -90,7 +90,10 @@ macro_rules! simd_struct {
                 return;
             }
             assert!(n == $chunks);
-            let mut s = 0u32;
+            // the sum of all lanes, associated the way the horizontal sum is written (chunks
+            // accumulated per lane, then halves folded): equivalence of two differently
+            // associated adder trees is SAT-hard although the formula is tiny
+            let mut v = [0u32; 8];
             let mut c = 0;
             while c < $chunks {
                 let (lx, ly) = unsafe { KLOG[c] };
@@ -99,11 +102,21 @@ macro_rules! simd_struct {
                 assert!(lx[j] == a[16 * c + j] && ly[j] == b[16 * c + j]);
                 let mut l = 0;
                 while l < 8 {
-                    s += ret[c][l] as u32;
+                    v[l] += ret[c][l] as u32;
                     l += 1;
                 }
                 c += 1;
             }
+            let mut n = 8;
+            while n > 2 {
+                let mut i = 0;
+                while i < n / 2 {
+                    v[i] += v[i + n / 2];
+                    i += 1;
+                }
+                n /= 2;
+            }
+            let s = v[0] + v[1];
             assert!(d == s);
             kani::cover!(d == $chunks * 8 * 48);
         }
